@@ -51,7 +51,7 @@ def slices(tier):
     # A: geometry, one label, contested ground truths, ties; distance modes with/without radius
     sl["A_dist"] = (
         dict(MaxE="3" if big else "2", MaxG="3" if big else "2", PX="2", PY="1", ELabels=S(q("car")), GLabels=S(q("car")), Frames="{0}",
-             PolicySet=S(q("DEFAULT")), TargetSets=S('<<"car">>'), RadiusSets="{<<>>, <<<<3,2>>>>}", ModeSet=DIST_MODES,
+             PolicySet=S(q("DEFAULT")), TargetSets=S('<<"car">>'), RadiusSets="{<<>>, <<<<3,2>>>>, <<<<2,1>>>>}", ModeSet=DIST_MODES,
              FpvalSet="{FALSE}", Sample="0"),
         ("3d", "2d", "3d_derived"),
     )
